@@ -57,48 +57,72 @@ def r12_1(chk):
         if o.rule == "R17.6" and "check_objects" in o.key:
             o.rule = "R12.1"
             chk.obs.append(o)
+    from ..terms import (SELF, A, NONE, K, contains, unroll_const_loops, pp, subterms, is_call)
     ix = chk.ix
     lf = ix.get_class("LogicalFile")
-    comp = lf.lookup("_check_completeness")
-    chk.consult(comp)
-    s = norm(comp.node)
-    for needle, what in (("if not self.defining_origin", "no origin"), ("if not self.channels", "no channels"),
-                         ("if not self.frames", "no frames")):
-        ok = needle in s
-        g = CFG(comp.node)
-        br = [i for i in g.branch if needle[3:] in norm(g.stmt[i].test)]
-        ok = ok and bool(br) and any(g.kind[x] == "raise" for x in g.reachable(g.branch[br[0]][0], exceptional=False))
-        chk.require(ok, "R12.1", f"completeness:{what}", f"a logical file with {what} is not rejected", comp.where)
     co = lf.lookup("check_objects")
-    chk.require(comp in chk.cg.callees(co), "R12.1", "completeness-on-write-path", "check_objects does not check "
-                "completeness", co.where)
+    chk.consult(co)
+    cs = chk.terms.inline(co, 3, stop=lambda g: g.kind == "property")   # properties stay opaque: self.channels etc.
+    raises = unroll_const_loops([(e.pc, e.value, e.ctx, e) for e in cs.effects if e.kind == "raise"])
+    for prop, what in (("defining_origin", "no origin"), ("channels", "no channels"), ("frames", "no frames")):
+        t = A(SELF, prop)
+        hits = [e for pc, v, ctx, e in raises if not ctx and len(pc) >= 1 and
+                (("not", t) in pc or ("cmp", "is", t, NONE) in pc) and
+                all(l in (("not", t), ("cmp", "is", t, NONE)) or (l[0] != "not" and l[0] != "cmp" or True) for l in pc)]
+        # the raise must not depend on anything but earlier completeness tests having passed
+        hits = [e for pc, v, ctx, e in raises if not ctx and (("not", t) in pc or ("cmp", "is", t, NONE) in pc) and
+                all(l in (("not", t), ("cmp", "is", t, NONE)) or (l[0] == "attr" and l[1] == SELF) or
+                    (l[0] == "cmp" and l[1] == "is not" and l[2][0] == "attr" and l[2][1] == SELF and l[3] == NONE)
+                    for l in pc)]
+        chk.require(bool(hits), "R12.1", f"completeness:{what}", f"a logical file with {what} is not rejected by "
+                    f"check_objects (no unconditional raise under `not self.{prop}`)", co.where)
+    chk.ok("R12.1", "completeness-on-write-path", "decided on the inlined summary of check_objects", co.where,
+           nontrivial=False)
     glr = ix.get_method("DLISFile", "generate_logical_records")
-    s = norm(glr.node)
-    chk.require("if f.defining_origin is None" in s and "raise RuntimeError" in s, "R12.1", "every-logical-file-has-origin",
+    gs = chk.summary(glr)
+    lfs_t = A(SELF, "logical_files")
+    ok = False
+    for e in gs.effects:
+        if e.kind != "raise" or len(e.loops()) != 1:
+            continue
+        it = e.loops()[0][2]
+        if not (it == lfs_t or (is_call(it, "enumerate") and it[2] and it[2][0] == lfs_t)):
+            continue
+        for l in e.pc:
+            if l[0] in ("cmp", "not") and contains(l, lambda x: x[0] == "attr" and x[2] == "defining_origin" and
+                                                   contains(x[1], lambda y: y[0] == "elem" and y[1] == it)):
+                if (l[0] == "cmp" and l[1] == "is" and l[3] == NONE) or l[0] == "not":
+                    ok = len(e.pc) == 1
+    chk.require(ok, "R12.1", "every-logical-file-has-origin",
                 "a logical file without origin is not rejected before generation", glr.where)
 
 
 def r12_2_data_guards(chk):
+    from ..terms import SELF, A, K, is_call, call_arg, pp, subterms, contains, int_norm
+    from ._layout import field_plan
     ix = chk.ix
-    dd = ix.get_method("SourceDataWrapper", "determine_dtypes")
-    chk.consult(dd)
-    s = norm(dd.node)
-    chk.require("except (ValueError, KeyError):" in s and "raise ValueError(f\"No dataset" in s, "R12.2",
-                "missing-dataset-raises", "a missing data set is not rejected", dd.where)
-    val = ix.get_method("ReprCodeConverter", "validate_numpy_dtype")
-    calls = [n for n in walk_local(dd.node) if isinstance(n, ast.Call) and val in ix.resolve_call(n, Scope(ix, dd))[0]]
-    loop = [n for n in walk_local(dd.node) if isinstance(n, ast.For)]
-    ok = bool(calls) and bool(loop) and all(any(x is c for x in ast.walk(loop[0])) for c in calls)
-    # every path through the loop body validates the dtype that ends up in the chunk dtype
-    g = CFG(dd.node)
-    vn = g.nodes_where(lambda s_: any(isinstance(c, ast.Call) and val in ix.resolve_call(c, Scope(ix, dd))[0]
-                                      for c in walk_expr(header_expr(s_) or ast.Pass())))
-    ap = g.nodes_where(lambda s_: isinstance(s_, ast.Expr) and isinstance(s_.value, ast.Call)
-                       and norm(s_.value.func) == "dtypes.append")
-    ok = ok and bool(ap) and all(g.dominated_by(a, vn) for a in ap)
+    fp = field_plan(chk)
+    dd = fp.func
+    data = ("param", dd.param_names[0])
+    loc = ("sub", fp.elem, K(1))
+    missing = [r for r in fp.raises if any(c[0] == "except" and {"KeyError", "ValueError"} & set(c[2]) for c in r[2])
+               or any(c[0] == "except" for c in r[2])]
+    chk.require(bool(missing), "R12.2", "missing-dataset-raises", "a missing data set is not rejected (no raise in a "
+                "handler around the look-up of the data set)", dd.where)
+    # the dtype validated is the dtype that ends up in the chunk dtype, on every path
+    ok = bool(fp.alts)
+    for conds, tup in fp.alts:
+        comps = tup[1] if tup[0] == "tuple" else ()
+        gets = [x for x in subterms(comps[1]) if is_call(x, "get", 2)] if len(comps) > 1 else []
+        ok = ok and len(gets) == 1 and any(call_arg(v, 0) == gets[0] for v in fp.validations)
+    uncond = [e for e in fp.summary.effects if e.kind == "call" and is_call(e.value, "validate_numpy_dtype")]
+    ok = ok and bool(uncond) and all(not e.pc for e in uncond)
     chk.require(ok, "R12.2", "unsupported-dtype-raises", "a data set dtype can enter the chunk dtype without being "
                 "validated against the dtype table", dd.where)
-    chk.require("if dset_row0.ndim > 2" in s and "raise RuntimeError" in s, "R12.2", "more-than-2-dimensions-raises",
+    too_many = [pc for pc, _, _ in fp.raises if any(
+        int_norm(l)[0] == "cmp" and int_norm(l)[1] == ">=" and int_norm(l)[3] == K(3) and int_norm(l)[2][0] == "attr"
+        and int_norm(l)[2][2] == "ndim" for l in pc)]
+    chk.require(bool(too_many), "R12.2", "more-than-2-dimensions-raises",
                 "data sets with more than two dimensions are not rejected", dd.where)
     # row counts
     base = ix.get_class("SourceDataWrapper")
